@@ -909,7 +909,7 @@ Lemma parseExpression_unfold f rbp :
   (do t <- curToken;
    if tt_eqb (ttype t) typeEOF then perr (mkError ErrUnexpectedEOF t "")
    else
-     advance false ;;
+     advance (opens_operand (ttype t)) ;;
      match nudOf f (pExpr f) (ttype t) with
      | None => perr (mkError ErrPrefix t "")
      | Some nud => do lhs <- nud t; lLoop f rbp lhs
@@ -1102,13 +1102,20 @@ Lemma C04_signature_flags lf f sig depth :
        else extractSignatureLoop f (sig ++ tvalue t) depth).
 Proof. split; reflexivity. Qed.
 
-(* The one remaining deviation from the rule is in parseExpression itself (parseExpression_unfold):
-   the token after the FIRST token of an operand is always requested with allowRegex = false,
-   also when that first token only OPENS the operand — ( [ { of a block, array, object, the
-   unary minus, the opening | of a transform — so that a regular expression directly after one
-   of these five tokens is not recognised: the programs (/ab/), [/ab/], -/ab/ are rejected
-   with ErrPrefix for the token / (after a separator it works: [1, /ab/]).  jsonata-js passes
-   the same flag.  See C04_opener_regex_quirk_ex below. *)
+(* parseExpression itself (parseExpression_unfold) requests the token after the FIRST token of an
+   operand with allowRegex = opens_operand: true when that first token only OPENS the operand —
+   ( [ { of a block, array, object, the unary minus, the opening | of a transform — where another
+   operand is expected, false after a complete operand (C04_opener_flags).  (Before the repair
+   cc3904c the flag was always false and (/ab/), [/ab/], -/ab/ were rejected with ErrPrefix.) *)
+Theorem C04_opener_flags ty :
+  opens_operand ty = true <->
+  (ty = typeParenOpen \/ ty = typeBracketOpen \/ ty = typeBraceOpen \/ ty = typeMinus \/ ty = typePipe).
+Proof.
+  split.
+  - destruct ty; cbn; intros H; try discriminate H; tauto.
+  - intros [->|[->|[->|[->| ->]]]]; reflexivity.
+Qed.
+
 
 (* C04_kw_names: where an operand is expected, the words and, or, in are field names *)
 Theorem C04_kw_names lf pe t :
@@ -1146,7 +1153,7 @@ Qed.
    influence how the content is grouped, and the content never captures operators outside. *)
 Theorem C04_paren f rbp p p0 e p1 p2 :
   ttype (ptoken p) = typeParenOpen ->
-  advance false p = ROk (tt, p0) ->
+  advance true p = ROk (tt, p0) ->
   ttype (ptoken p0) <> typeParenClose ->
   pExpr (S f) 0 p0 = ROk (e, p1) ->
   ttype (ptoken p1) = typeParenClose ->
@@ -1155,7 +1162,7 @@ Theorem C04_paren f rbp p p0 e p1 p2 :
 Proof.
   intros Hop Ha Hne Hpe Hcl Ha2.
   rewrite parseExpression_unfold. rewrite bind_curToken. rewrite Hop.
-  cbn [tt_eqb tt_num Nat.eqb]. unfold sbind at 1. rewrite Ha.
+  cbn [opens_operand tt_eqb tt_num Nat.eqb orb]. unfold sbind at 1. rewrite Ha.
   change (nudOf (S f) (pExpr (S f)) typeParenOpen) with (Some (parseBlock (S f) (pExpr (S f)))).
   cbv iota. unfold sbind at 1.
   rewrite (parseBlock_single f (pExpr (S f)) (ptoken p) p0 e p1 p2 Hne Hpe Hcl Ha2).
@@ -1239,17 +1246,16 @@ Example C04_regex_after_closer_ex (pn : string -> numlit) (rc : string -> option
                 ROk (NNumeric NumDiv l (NName "c" false))).
 Proof. split; [|split; eexists]; vm_compute; reflexivity. Qed.
 
-(* the remaining deviation: a regular expression directly after an opening ( [ or a unary minus *)
-Example C04_opener_regex_quirk_ex (pn : string -> numlit) (fg : f64 -> string) (q : string -> string) :
+(* after the repair: a regular expression directly after an opening ( [ or a unary minus *)
+Example C04_opener_regex_ex (pn : string -> numlit) (fg : f64 -> string) (q : string -> string) :
   let rc := fun _ : string => @None string in
-  (exists e, parse_raw pn rc fg q (parse_fuel "[/ab/]") "[/ab/]" = RErr e /\ etype e = ErrPrefix /\ etoken e = "/") /\
-  (exists e, parse_raw pn rc fg q (parse_fuel "(/ab/)") "(/ab/)" = RErr e /\ etype e = ErrPrefix /\ etoken e = "/") /\
-  (exists e, parse_raw pn rc fg q (parse_fuel "-/ab/") "-/ab/" = RErr e /\ etype e = ErrPrefix /\ etoken e = "/") /\
-  parse_raw pn rc fg q (parse_fuel "[x,/ab/]") "[x,/ab/]" = ROk (NArray [NName "x" false; NRegex "ab"]).
-Proof.
-  split; [|split; [|split]]; try (eexists; split; [vm_compute; reflexivity|split; reflexivity]).
-  vm_compute. reflexivity.
-Qed.
+  parse_raw pn rc fg q (parse_fuel "[/ab/]") "[/ab/]" = ROk (NArray [NRegex "ab"]) /\
+  parse_raw pn rc fg q (parse_fuel "(/ab/)") "(/ab/)" = ROk (NBlock [NRegex "ab"]) /\
+  parse_raw pn rc fg q (parse_fuel "-/ab/") "-/ab/" = ROk (NNegation (NRegex "ab")) /\
+  parse_raw pn rc fg q (parse_fuel "[x,/ab/]") "[x,/ab/]" = ROk (NArray [NName "x" false; NRegex "ab"]) /\
+  parse_raw pn rc fg q (parse_fuel "(a)/b") "(a)/b" = ROk (NNumeric NumDiv (NBlock [NName "a" false]) (NName "b" false)).
+Proof. repeat split; vm_compute; reflexivity. Qed.
+
 
 Print Assumptions C04_ws.
 Print Assumptions scan_string_spec.
@@ -1676,12 +1682,12 @@ Notation apexpr := (pexpr token token tok_lside tok_rside).
 Notation aploop := (ploop token token tok_lside tok_rside).
 
 Lemma nud_atom lf pe a na : atom_node a = Some na ->
-  tt_eqb (ttype a) typeEOF = false /\
+  tt_eqb (ttype a) typeEOF = false /\ opens_operand (ttype a) = false /\
   exists nud, nudOf lf pe (ttype a) = Some nud /\ nud a = sret na.
 Proof.
   unfold atom_node. destruct a as [ty v pos]. cbn [ttype tvalue].
   destruct ty; intros H; try discriminate H; injection H as <-;
-    (split; [reflexivity|eexists; split; reflexivity]).
+    (split; [reflexivity|split; [reflexivity|eexists; split; reflexivity]]).
 Qed.
 
 Lemma binop_not_assign ty mk : binop_of ty = Some mk -> tt_eqb ty typeAssign = false.
@@ -1719,8 +1725,8 @@ Proof.
     destruct s as [|[a|o] s']; try discriminate H.
     destruct Hst as (_ & Hp & Ha & p' & Hadv & Hst').
     destruct (atom_node a) as [na|] eqn:Ena; [|discriminate Ha].
-    destruct (nud_atom f (pExpr f) a na Ena) as (Hne & nud & Hnud & Hrun).
-    rewrite parseExpression_unfold, bind_curToken, Hp, Hne.
+    destruct (nud_atom f (pExpr f) a na Ena) as (Hne & Hno & nud & Hnud & Hrun).
+    rewrite parseExpression_unfold, bind_curToken, Hp, Hne, Hno.
     unfold sbind at 1. rewrite Hadv. rewrite Hnud. unfold sbind at 1. rewrite Hrun. unfold sret.
     apply (IHl r (Leaf a) na s' p' t rest Hst' H). exact Ena.
   - intros r lhs nl s p t rest Hst H Hl. rewrite ploop_S in H. rewrite ledLoop_unfold, bind_curToken.
